@@ -241,8 +241,9 @@ def graphmlSpec (weightKey : String) (doc : GraphML.Doc) (n : Nat) (dense : List
   let edges := doc.children.filter GraphML.isEdge
   let ids := nodes.map fun c => c.id.getD ""
   let canonical := doc.nodeids == some "canonical"
-  let wkey := (doc.keys.filter fun k => k.name == some weightKey && !(k.for_ == some "node")).getLast?
-  let wtype : Option GraphML.PType := wkey.bind fun k => k.type.bind GraphML.ptypeOf
+  -- the weight key: the last key named `weight_key` (DTD defaults: name = id, type = string, for = all) not for nodes
+  let wkey := (doc.keys.filter fun k => k.name.getD (k.id.getD "") == weightKey && !(k.for_.getD "all" == "node")).getLast?
+  let wtype : Option GraphML.PType := wkey.bind fun k => GraphML.ptypeOf (k.type.getD "string")
   let kind : Ingest.Kind := match wkey with
     | some _ => GraphML.kindOf wtype
     | none => .bool
